@@ -23,12 +23,18 @@ def main():
     if err:
         print(json.dumps({"scope": "native scenario harness", "evaluations": 0, "distinct_nontrivial": 0, "rule": "-", "samples": [], "violations": [], "known_hits": [], "error": err}))
         sys.exit(3)
+    open_classes = {k["class"] for k in payload.get("known", [])}
+    known = {}
     for f in fails:
-        if f["group"] in groups and len(violations) < 10:
+        if f["group"] not in groups:
+            continue
+        if f.get("cls") in open_classes:
+            known.setdefault(f["cls"], []).append(f["what"])
+        elif len(violations) < 10:
             violations.append({"what": "[%s] %s" % (f["group"], f["what"])})
-    print(json.dumps({"scope": "native scenario harness, families %s: histories (fresh, repeat, edit, revert), 14 stage lists on fresh / populated stores, 8 failing evaluations x {once, twice}, 5 ill-formed evaluations" % groups,
+    print(json.dumps({"scope": "native scenario harness, families %s: histories (fresh, repeat, edit, revert), 14 stage lists on fresh / populated stores, 8 failing evaluations x {once, twice}, 5 ill-formed evaluations + 6 call-cycle shapes (self, map, key=, keep, length 3, methods)" % groups,
                       "evaluations": 60, "distinct_nontrivial": 60, "rule": "one case per scenario of the selected families", "samples": [{"scenario": "root raises KeyboardInterrupt, evaluated twice"}],
-                      "violations": violations, "known_hits": []}))
+                      "violations": violations, "known_hits": ["bounded:%s (%d cases, e.g. %s)" % (c, len(w), w[0][:200]) for c, w in sorted(known.items())]}))
 
 
 if __name__ == "__main__":
